@@ -127,6 +127,27 @@ CLAIMED = {
                 "(hit/miss decided in exact rationals). Orbital.get_position is taken as the state source. M_VecLoop.v is hand-written from geoloc.py:54-59,197-202",
         "technique": "Coq proof over a source-regenerated model with recorded qrotate calls + hand-written loop-exit model + implementation oracle",
     },
+    "C10": {
+        "text": "Coq theorems (no axioms) over a hand-written executable model of the line scanner (explicit cursor, StopIteration, prefix designator, "
+                "SATELLITES as finite map), the bulk readers and read_platform_numbers: for well-formed collections of any length the result is the first "
+                "entry matching by name line or registered 5-character id (empty name on a stream -> first entry), else KeyError; both lines come from one "
+                "entry (adjacent source lines even without well-formedness); bulk reads return every entry in order; the platforms mapping is leading "
+                "words -> last token with the last row winning. Necessity of each hypothesis proved by _refuted witnesses",
+        "design_ref": "DESIGN.md 5/C10",
+        "note": "trusted: Coq kernel, Python line iteration and XML parsing, ASCII domain; model-code tie by generated correspondence (about 1.8k quick, "
+                "12k thorough cases, model evaluated in Coq), sats_ok (5-character ids) discharged by computation for the active platforms file",
+        "technique": "hand-written Gallina model + structural induction; vm_compute correspondence + independent oracle",
+    },
+    "C16": {
+        "text": "Coq theorems (no axioms) by complete case analysis over a hand-written decision model of _read_tle / _get_uris_and_open_func / "
+                "_get_config_path / get_platforms_filepath: precedence lines > file/stream > newest TLES file > network; no network request whenever a local "
+                "source is configured even if it yields nothing; registry from PYORBITAL_CONFIG_PATH iff it holds platforms.txt; PPP_CONFIG_DIR irrelevant; "
+                "newest-by-ctime proved for arbitrary file lists. Model tied to the code by an EXHAUSTIVE run of all 216 configurations (x present/absent) "
+                "in fresh interpreters with urlopen/requests/socket interposed and file opens logged",
+        "design_ref": "DESIGN.md 5/C16",
+        "note": "trusted: Coq kernel, OS change-time ordering, existence of the packaged platforms.txt; exhaustive for the stated abstraction",
+        "technique": "finite-enum Gallina model + destruct/vm_compute; exhaustive subprocess correspondence",
+    },
 }
 
 _PENDING = "model and theorems not built yet in this round; not claimed on sampling alone (see DESIGN.md 10)"
